@@ -100,6 +100,16 @@ def rule_pair(E, R):
     ok = len(incs) == 1 and enabled(incs[0]) is True and not incs[0].in_loop and len(trues) == 1 and len(falses) == 1 and \
         len(leaves) == 2 and enabled(trues[0]) is True and enabled(falses[0]) is False
     R.check(ok, rule, START, "the level is incremented exactly when start_catching() returns true", where=hs["span"])
+    # stop decrements whenever it is called (catch_panic calls it exactly when start returned true)
+    hp = E.hir(STOP)
+    if not hp:
+        return R.cannot(rule, STOP, "anchor not found")
+    Sp = sem.Sem(E, hp)
+    decs = [x for x in Sp.sites() if x.node.get("k") == "MethodCall" and x.node in _tls_with(x.node, "PANIC_CATCHER_LEVEL")]
+    ok = len(decs) == 1 and not decs[0].pc_has_conditions() and not decs[0].in_loop and not decs[0].in_closure
+    R.check(ok, rule, STOP, "stop_catching() decrements the level unconditionally (every increment is undone)",
+            "the level update in stop_catching() must not depend on any condition: catch_panic has already established that "
+            "start_catching() incremented it", hp["span"])
 
 
 def rule_level(E, R):
